@@ -2,7 +2,7 @@
 //! statistics.  `eval_case` is the single judgement function: checks, replay and the minimiser
 //! all go through it, so a replayed case is judged exactly as it was when found.
 
-use crate::case::{materialise, Case, CorruptOp, Step};
+use crate::case::{materialise, Case, CorruptOp, Input, Step};
 use crate::corpus::Corpus;
 use crate::oracle::*;
 use crate::rng;
@@ -469,16 +469,42 @@ impl<'a> Worker<'a> {
         let stale: Vec<String> = case.meta.get("stale").and_then(|k| k.as_array()).map(|a| a.iter().filter_map(|x| x.as_str().map(String::from)).collect()).unwrap_or_default();
         let mut fresh = case.clone();
         fresh.inputs.retain(|i| !stale.contains(&i.path));
+        if case.meta.get("ignore_env").and_then(|b| b.as_bool()).unwrap_or(false) {
+            for s in &mut fresh.steps {
+                s.env.clear();
+            }
+        }
+        // meta.reference_steps: the reference pipeline uses these argv lists instead (same outputs expected)
+        if let Some(rs) = case.meta.get("reference_steps").and_then(|x| x.as_array()) {
+            for (k, a) in rs.iter().enumerate() {
+                if let (Some(st), Some(argv)) = (fresh.steps.get_mut(k), a.as_array()) {
+                    st.argv = argv.iter().filter_map(|x| x.as_str().map(String::from)).collect();
+                }
+            }
+        }
+        if let Some(ri) = case.meta.get("reference_source").and_then(|x| x.as_str()) {
+            for i in fresh.inputs.iter_mut() {
+                if i.path == crate::scen::SRC {
+                    i.base = crate::case::Base::Text(ri.to_string());
+                }
+            }
+        }
         let g = self.golden(&fresh);
         let outs = self.run_pipeline(case);
         let mut v = vec![];
         self.stats.nontrivial.insert(golden_key(case));
+        let tag = case.meta.get("variant").and_then(|x| x.as_str()).unwrap_or("stale-output").to_string();
+        let strict = tag != "stale-output";
         for (i, (go, o)) in g.iter().zip(outs.iter()).enumerate() {
             if !o.ok() {
+                // (for the equivalence variants a command that fails where the reference succeeds differs too)
+                if strict && go.ok() {
+                    v.push(Violation { class: format!("{}:fails-where-reference-succeeds:{}", tag, cmd_kind(&case.steps[i])), detail: short(&o.stderr, 300) });
+                }
                 break;
             }
             if let Some(d) = success_differs(go, o) {
-                v.push(Violation { class: format!("stale-output:exit0-differs:{}:{}", cmd_kind(&case.steps[i]), file_role(&d)), detail: format!("pre-existing {:?}: output {} differs from the one written into an empty directory", stale, d) });
+                v.push(Violation { class: format!("{}:exit0-differs:{}:{}", tag, cmd_kind(&case.steps[i]), file_role(&d)), detail: format!("{} {:?}: output {} differs from the reference run's", tag, stale, d) });
                 break;
             }
         }
@@ -592,6 +618,35 @@ pub fn success_differs(golden: &Outcome, o: &Outcome) -> Option<String> {
         }
     }
     None
+}
+
+/// Initial-state variation "interrupted earlier run": every output the pipeline writes already exists
+/// and holds a proper prefix of what is about to be written (or nothing at all when `empty`).
+/// Judged by the "stale" oracle (reference = the same pipeline in a directory without them).
+pub fn prefix_stale_case(w: &mut Worker, base: &Case, empty: bool) -> Option<Case> {
+    let g = w.golden(base);
+    if g.is_empty() || !g.iter().all(|o| o.ok()) {
+        return None;
+    }
+    let mut c = base.clone();
+    let mut stale = vec![];
+    for o in g.iter() {
+        for (p, d) in &o.files {
+            if d.len() < 2 || c.inputs.iter().any(|i| &i.path == p) {
+                continue;
+            }
+            let cut = if empty { 0 } else { d.len() * 2 / 3 };
+            c.inputs.push(Input::bytes(p, d[..cut].to_vec()));
+            stale.push(p.clone());
+        }
+    }
+    if stale.is_empty() {
+        return None;
+    }
+    c.oracle = "stale".into();
+    c.name = format!("{} [outputs pre-exist as {}]", base.name, if empty { "empty files" } else { "prefixes of themselves" });
+    c.meta = serde_json::json!({"stale": stale});
+    Some(c)
 }
 
 /// Apply a light-weight variant to a scenario.
@@ -837,6 +892,8 @@ pub fn run_fault_campaign(ctx: &Ctx, jobs: &[FaultJob]) -> CampaignResult {
         let mut base = job.base.clone();
         base.oracle = "failstop".into();
         base.meta["step"] = serde_json::json!(job.step);
+        // under a fault too: no crash, and failure <=> an error-severity diagnostic
+        base.meta["also_term"] = serde_json::json!(true);
         for v in vs {
             let case = apply_variant(&base, v);
             w.judge(&case);
